@@ -113,7 +113,7 @@ func genHistory(e *Env, i, length int) []histStep {
 	r := Rng(e.Seed, "c18", i)
 	var hs []histStep
 	hs = append(hs, histStep{Op: "switch", Var: i % c18NVariants})
-	damages := []string{"stale", "noncompiling", "truncated", "garbage", "tail", "longer-variant"}
+	damages := []string{"stale", "noncompiling", "truncated", "garbage", "tail", "longer-variant", "same-length", "whitespace", "comment-before-header", "future-mtime", "ancient-mtime"}
 	for len(hs) < length {
 		switch x := r.Intn(12); {
 		case x < 3:
@@ -261,8 +261,40 @@ func CheckC18(e *Env) int {
 				case "longer-variant":
 					// the output of the variant that extends the short one
 					b = ref[4]
+				case "same-length", "whitespace", "comment-before-header", "future-mtime", "ancient-mtime":
+					base := ref[1]
+					if c18Accepted[cur] {
+						base = ref[cur]
+					}
+					b = append([]byte(nil), base...)
+					switch h.Arg {
+					case "same-length":
+						// one identifier character changed: same size, same prefix, same suffix
+						if idx := strings.LastIndex(string(b), "return"); idx > 0 {
+							b[idx] = 'R'
+						}
+					case "whitespace":
+						b = append(b, '\n', '\n')
+					case "comment-before-header":
+						b = append([]byte("// hand-written notes that were put before the header\n\n"), b...)
+					}
 				}
 				os.WriteFile(out, b, 0o644)
+				switch h.Arg {
+				case "future-mtime":
+					// up-to-date bytes... except one, with a modification time after every source
+					if idx := strings.LastIndex(string(b), "return"); idx > 0 {
+						b[idx] = 'R'
+						os.WriteFile(out, b, 0o644)
+					}
+					os.Chtimes(out, time.Now().Add(48*time.Hour), time.Now().Add(48*time.Hour))
+				case "ancient-mtime":
+					if idx := strings.LastIndex(string(b), "return"); idx > 0 {
+						b[idx] = 'R'
+						os.WriteFile(out, b, 0o644)
+					}
+					os.Chtimes(out, time.Unix(86400*365, 0), time.Unix(86400*365, 0))
+				}
 				file = b
 				log = append(log, fmt.Sprintf("%d damage output (%s, %d bytes)", k, h.Arg, len(b)))
 			case "gen", "diff", "check":
